@@ -231,7 +231,22 @@ impl Handler {
         crate::verif::apoint("handler.subscribe", self.id.to_u128()).await;
         let recver = store.read(options.clone()).await;
 
-        {
+        // A tail subscription starts at "now": a `.register` / `.unregister` for this topic
+        // appended after this handler's own registration but before the subscription would
+        // never reach it, and the handler would stay active next to its replacement.
+        let superseded_by = if options.tail {
+            ["register", "unregister"]
+                .iter()
+                .filter_map(|suffix| {
+                    store.head(&format!("{}.{}", &self.topic, suffix), self.context_id)
+                })
+                .filter(|frame| frame.id > self.id)
+                .min_by_key(|frame| frame.id)
+        } else {
+            None
+        };
+
+        if superseded_by.is_none() {
             let store = store.clone();
             let mut handler = self.clone();
 
@@ -251,6 +266,17 @@ impl Handler {
                 }))
                 .build(),
         );
+
+        if let Some(frame) = superseded_by {
+            let _ = store.append(
+                Frame::builder(format!("{}.unregistered", &self.topic), self.context_id)
+                    .meta(serde_json::json!({
+                        "handler_id": self.id.to_string(),
+                        "frame_id": frame.id.to_string(),
+                    }))
+                    .build(),
+            );
+        }
 
         Ok(())
     }
